@@ -1,0 +1,16 @@
+//go:build verif
+
+// Contracts for package cmd (gcetcbendorsement CLI), checked by /verif (govc). Comment-only; compiled only under
+// -tags verif. newPool / poolAdds / poolSrc: ghost model of certificate pools, /verif/stubs/stdlib.spec.
+package cmd
+
+// C01 (authentic with respect to the caller's roots only): the root of trust handed to verification is a pool created
+// empty that holds exactly one addition - the bytes of the --root_cert file or, without one, of the published root
+// (DefaultRootURL) - and nothing else (in particular not the host's certificate store).
+//@ func rootOfTrust
+//@   modifies *
+//@   atcall Get requires[C01] root == "" && p1 == "https://pki.goog/cloud_integrity/GCE-cc-tcb-root_1.crt"
+//@   atcall ReadFile requires[C01] root != "" && p1 == root
+//@   atcall AppendCertsFromPEM requires[C01] newPool(p0) && poolAdds[p0] == 0 && same(p1, data)
+//@   atcall AddCert requires[C01] newPool(p0) && poolAdds[p0] == 0 && certDer(p1) == val(data)
+//@   ensures[C01] err == nil ==> result0 != nil && fresh(result0) && newPool(result0) && poolAdds[result0] == 1
